@@ -16,6 +16,30 @@ class Clause:
         self.internal = text.startswith("internal:")
         if self.internal:
             text = text[len("internal:"):].strip()
+        # "ghostdef: <expr>" = the definition of this function's own update of
+        # a ghost label (ghost:cert): assumed when its body reaches the normal
+        # exit (ghost state is ours to define; it constrains no program
+        # value), assumed by callers like any other postcondition
+        # "reveal A,B: <expr>": the obligation for this clause may use the
+        # definitions of the hidden formulas A, B (see spec built-in hidden())
+        self.reveal = ()
+        if text.startswith("reveal "):
+            head, text = text.split(":", 1)
+            self.reveal = tuple(x.strip() for x in head[len("reveal "):].split(","))
+            text = text.strip()
+        # "hide NAME: <expr>": where this clause is ASSUMED (a callee's
+        # postcondition at a call site, a proved lemma) it goes behind the
+        # propositional name NAME; only obligations whose clause says
+        # `reveal NAME:` see it.  Keeps quantifier-heavy facts out of the
+        # queries that do not need them.
+        self.hide = None
+        if text.startswith("hide "):
+            head, text = text.split(":", 1)
+            self.hide = head[len("hide "):].strip()
+            text = text.strip()
+        self.ghostdef = text.startswith("ghostdef:")
+        if self.ghostdef:
+            text = text[len("ghostdef:"):].strip()
         self.text = text
         self.props = props
         self.label = label
@@ -55,7 +79,7 @@ class FuncContract:
                  loops=None, at_yield=(), modifies=(), generator=False,
                  ghosts=None, cls=None, assumed=False, note="",
                  on_abandon=(), locals_=None, reads_async=False,
-                 verify=True, pure=False, at_call=None, sig=None, stream_out=False, yields=None, summary=None, defs=(), decreases=None, property=False, at_diverge=(), fs_root=None, fs_effects=None, foreign_base=False):
+                 verify=True, pure=False, at_call=None, sig=None, stream_out=False, yields=None, summary=None, defs=(), decreases=None, property=False, at_diverge=(), fs_root=None, fs_effects=None, foreign_base=False, exit_lemmas=()):
         self.module = module
         self.qualname = qualname
         self.props = list(props)
@@ -100,6 +124,9 @@ class FuncContract:
         # caller-supplied callables may raise BaseException subclasses that
         # are not Exceptions (KeyboardInterrupt, SystemExit, ...)
         self.foreign_base = foreign_base
+        # proof steps at the normal exit: each is proved from what precedes
+        # it and may then be used by the following ones and by `ensures`
+        self.exit_lemmas = _clauses(exit_lemmas, props)
         self.at_diverge = _clauses(at_diverge, props)
         self.at_call = {k: _clauses(v, props) for k, v in (at_call or {}).items()}
 
